@@ -300,6 +300,60 @@ func (e *c07ex) Exec(op string) string {
 		}
 		e.nontrivial = true
 		return okErr(e.call(mode, u(0), "transfer", u(1).Addr, a[2], "ref"))
+	case "bad":
+		// requests that fail, each for another reason: the refusal (its text included) is part of the
+		// result and has to be the same bytes on every instance
+		if len(a) != 2 || u(0) == nil {
+			return "bad-op"
+		}
+		hash := strings.Repeat("ab", 32)
+		other := wd.Users[1].Addr
+		if u(0) == wd.Users[1] {
+			other = wd.Users[2].Addr
+		}
+		switch a[1] {
+		case "mswap-exp":
+			return okErr(e.call(mode, u(0), "multiSwapBegin", "VT", `{"assets":[{"group":"VT","amount":"1e3"}]}`, "CC", hash))
+		case "mswap-neg":
+			return okErr(e.call(mode, u(0), "multiSwapBegin", "VT", `{"assets":[{"group":"VT","amount":"-5"}]}`, "CC", hash))
+		case "mswap-second":
+			return okErr(e.call(mode, u(0), "multiSwapBegin", "VT", `{"assets":[{"group":"VT","amount":"1"},{"group":"VT_2","amount":"x"},{"group":"VT_3","amount":"2"}]}`, "CC", hash))
+		case "mswap-empty":
+			return okErr(e.call(mode, u(0), "multiSwapBegin", "VT", `{"assets":[]}`, "CC", hash))
+		case "mswap-huge":
+			return okErr(e.call(mode, u(0), "multiSwapBegin", "VT", `{"assets":[{"group":"VT","amount":"99999999999999999999999999"},{"group":"VT_2","amount":"1"}]}`, "CC", hash))
+		case "swap-amount":
+			return okErr(e.call(mode, u(0), "swapBegin", "VT", "CC", "1x", hash))
+		case "swap-huge":
+			return okErr(e.call(mode, u(0), "swapBegin", "VT", "CC", "99999999999999999999999999", hash))
+		case "swap-hash":
+			return okErr(e.call(mode, u(0), "swapBegin", "VT", "CC", "1", "zz"))
+		case "transfer-neg":
+			return okErr(e.call(mode, u(0), "transfer", other, "-1", "ref"))
+		case "transfer-word":
+			return okErr(e.call(mode, u(0), "transfer", other, "ten", "ref"))
+		case "transfer-zero":
+			return okErr(e.call(mode, u(0), "transfer", other, "0", "ref"))
+		case "transfer-self":
+			return okErr(e.call(mode, u(0), "transfer", u(0).Addr, "1", "ref"))
+		case "transfer-huge":
+			return okErr(e.call(mode, u(0), "transfer", other, "99999999999999999999999999", "ref"))
+		case "transfer-addr":
+			return okErr(e.call(mode, u(0), "transfer", "not-an-address", "1", "ref"))
+		case "emit-stranger":
+			return okErr(e.call(mode, u(0), "emit", other, "5"))
+		case "setrate-stranger":
+			return okErr(e.call(mode, u(0), "setRate", "buyToken", "USD", "100000000"))
+		case "setrate-word":
+			return okErr(e.call(mode, wd.Issuer, "setRate", "buyToken", "USD", "much"))
+		case "setfee-stranger":
+			return okErr(e.call(mode, u(0), "setFee", "VT", "1", "0", "0"))
+		case "lock-json":
+			return okErr(e.call(mode, wd.AdminU, "lockTokenBalance", `{"id":"L1","address":"`+other+`","token":"VT","amount":"-1","reason":"r"}`))
+		case "script-fail":
+			return okErr(e.call(mode, u(0), "script", "put:k1:v;fail"))
+		}
+		return "bad-op"
 	case "multi":
 		// a scripted body with many writes and events: exercises the sorted write / event lists
 		if len(a) != 1 {
@@ -341,6 +395,10 @@ func (e *c07ex) Exec(op string) string {
 	return "bad-op"
 }
 
+var badKinds = []string{"mswap-exp", "mswap-neg", "mswap-second", "mswap-empty", "mswap-huge", "swap-amount", "swap-huge", "swap-hash",
+	"transfer-neg", "transfer-word", "transfer-zero", "transfer-self", "transfer-huge", "transfer-addr", "emit-stranger",
+	"setrate-stranger", "setrate-word", "setfee-stranger", "lock-json", "script-fail"}
+
 func genC07(c *Cfg, emit func([]string)) {
 	nHist, maxSteps := 60, 14
 	if c.Thorough() {
@@ -364,7 +422,9 @@ func genC07(c *Cfg, emit func([]string)) {
 		}
 		for j := 0; j < n; j++ {
 			mode := pick("cb", "ct", "db", "dt", "dt", "db")
-			switch c.Rng.Intn(12) {
+			switch c.Rng.Intn(14) {
+			case 12, 13:
+				h = append(h, mode+" bad "+pick(users...)+" "+pick(badKinds...))
 			case 0, 1:
 				h = append(h, mode+" fund "+pick(users...)+" "+amt())
 			case 2, 3:
@@ -390,7 +450,7 @@ func genC07(c *Cfg, emit func([]string)) {
 		h = append(h, "dt meta", "bal")
 		emit(h)
 	}
-	c.Rule = "random histories of committed and simulated-and-dropped proposals (emit, setFee valid/invalid, setFeeAddress, setRate, transfer, multi-write scripts, multi-transfer requests, queries) on both routes; every proposal is simulated on the long-lived instance, on a fresh instance and again on the long-lived one and the three results are compared byte for byte; non-trivial = contains a setFee or a transfer"
+	c.Rule = "random histories of committed and simulated-and-dropped proposals (emit, setFee valid/invalid, setFeeAddress, setRate, transfer, multi-write scripts, multi-transfer requests, queries, and 20 kinds of failing requests: malformed / negative / oversized amounts and asset lists of swaps, multi-swaps, transfers and locks, strangers calling issuer methods, failing scripts) on both routes; every proposal is simulated on the long-lived instance, on a fresh instance and again on the long-lived one and the three results are compared byte for byte; non-trivial = contains a setFee or a transfer"
 }
 
 func jsonField(p, field string) string {
